@@ -84,8 +84,9 @@ let command (ws : Stdlib.String.t list) : Stdlib.String.t =
   | ["mutants"; seed; size; maxper] -> mutants_cmd seed size maxper
   | ["forms"; seed; size] ->
     let ((hd, forms), po) = tool_forms (to_coq seed) (to_coq size) in
-    Printf.sprintf "{\"seed\":%s,\"size\":%s,\"header\":%s,\"forms\":[%s],%s}"
-      (jnum (to_coq seed)) (jnum (to_coq size)) (js hd)
+    let fa = of_coq (tool_forms_failed_at (to_coq seed) (to_coq size)) in
+    Printf.sprintf "{\"seed\":%s,\"size\":%s,\"failed_at\":%s,\"header\":%s,\"forms\":[%s],%s}"
+      (jnum (to_coq seed)) (jnum (to_coq size)) (if fa = "" then "null" else fa) (js hd)
       (Stdlib.String.concat "," (List.map (fun (src, out) ->
            Printf.sprintf "{\"src\":%s,\"expect_out\":%s}" (js src) (js out)) forms))
       (prog_fields po)
